@@ -53,7 +53,7 @@ func fieldsAssigned(r *Run, f *core.FuncInfo, typeQual string) map[string][]ast.
 		n, ok := t.(*types.Named)
 		return ok && n.Obj() == tn
 	}
-	ast.Inspect(f.Body(), func(x ast.Node) bool {
+	core.InspectBody(f, func(x ast.Node) bool {
 		switch s := x.(type) {
 		case *ast.AssignStmt:
 			for i, l := range s.Lhs {
@@ -143,7 +143,7 @@ func clearedBeforeEncode(r *Run, fn string, cloneFns []string, cleared []string,
 	}
 	got := map[string]bool{}
 	var gens []core.NodeGen
-	ast.Inspect(f.Body(), func(x ast.Node) bool {
+	core.InspectBody(f, func(x ast.Node) bool {
 		as, ok := x.(*ast.AssignStmt)
 		if !ok || len(as.Lhs) != len(as.Rhs) {
 			return true
@@ -220,7 +220,7 @@ func init() {
 						}
 					}
 					usesCloneTx := false
-					ast.Inspect(f.Body(), func(x ast.Node) bool {
+					core.InspectBody(f, func(x ast.Node) bool {
 						if e, isE := x.(ast.Expr); isE && core.CallAtom([]string{"types.CloneTx"})(c, e) {
 							usesCloneTx = true
 						}
@@ -256,7 +256,6 @@ func init() {
 				// crypto.Load always appends the enable check for its height
 				core.CallArgs{Fn: "common/crypto.Load", Callee: []string{"common/crypto.load"}, What: "enable-height option always present",
 					Args: map[int]core.ExprPred{0: core.IsObj("param:0"), 1: core.And(core.CallsAny("common/crypto.WithLoadOptionEnableCheck"), core.Mentions("param:1"))}, Min: 2}.Check(r)
-				core.FailStops{Fn: "common/crypto.load", Callee: []string{"common/crypto.LoadOption"}, Fail: core.OErrNonNil, Idx: -1, Forbidden: core.SuccessReturn(-1), Min: 0, Name: "option error"}.Check(r)
 				optFail(r)
 				core.LiveReturn{Fn: "common/crypto.load", Sentinels: []string{"common/crypto.ErrUnknownDriver"}}.Check(r)
 				// the option closure
@@ -280,8 +279,8 @@ func init() {
 				f := r.Fn("common/crypto.Init")
 				if f != nil {
 					fl := core.RunFlow(f, &core.FlowSpec{Assume: func(c *core.Ctx, e ast.Expr) core.Tri {
-						if op, ok := core.CmpAtom(c, e, lenOf(core.Mentions("common/crypto.Config.EnableTypes")), core.IsConstInt(0)); ok && op == token.GTR {
-							return core.False
+						if t := core.AssumeRel(lenOf(core.Mentions("common/crypto.Config.EnableTypes")), token.GTR, core.IsConstInt(0), core.False)(c, e); t != core.Unknown {
+							return t
 						}
 						return core.Unknown
 					}})
@@ -372,8 +371,8 @@ func init() {
 					return core.DerivedFrom("types.Transactions.Txs")(c, e)
 				}
 				asm := &core.FlowSpec{AssumeObj: map[types.Object]core.Tri{}, Assume: func(c *core.Ctx, e ast.Expr) core.Tri {
-					if op, ok := core.CmpAtom(c, e, core.IsObj("param:5"), core.IsConstInt(0)); ok && op == token.GTR {
-						return core.True
+					if t := core.AssumeRel(core.IsObj("param:5"), token.GTR, core.IsConstInt(0), core.True)(c, e); t != core.Unknown {
+						return t
 					}
 					return core.Unknown
 				}}
@@ -391,7 +390,7 @@ func init() {
 				core.RejectWhen{Fn: fn, Spec: asm, Name: "group count > MaxTxGroupSize", L: gc, R: core.IsObj("types.MaxTxGroupSize"), Rel: token.GTR, Sentinel: "types.ErrTxGroupCountBigThanMaxSize"}.Check(r)
 				core.RejectWhen{Fn: fn, Spec: asm, Name: "group count != number of members", L: gc, R: lenOfDeep(isTxs), Rel: token.NEQ, Sentinel: "types.ErrTxGroupCount"}.Check(r)
 				core.RejectWhen{Fn: fn, Spec: asm, Name: "head's header != its own hash", BoolAtom: core.CallAtomSym("bytes.Equal", core.CallsAny(txm+"Hash"), core.Mentions("types.Transaction.Header")), RejectVal: false, Sentinel: "types.ErrTxGroupHeader"}.Check(r)
-				core.RejectWhen{Fn: fn, Spec: asm, Name: "member header != head header", BoolAtom: core.CallAtomSym("bytes.Equal", core.And(core.Mentions("types.Transaction.Header"), core.Not(core.CallsAny(txm+"Hash"))), core.And(core.Mentions("types.Transaction.Header"), core.Not(core.CallsAny(txm+"Hash")))), RejectVal: false, Sentinel: "types.ErrTxGroupHeader"}.Check(r)
+				core.RejectWhen{Fn: fn, Spec: asm, Name: "member header != head header", BoolAtom: core.CallAtomSym("bytes.Equal", core.And(core.Mentions("types.Transaction.Header"), core.Not(core.CallsAnyDirect(txm+"Hash"))), core.And(core.Mentions("types.Transaction.Header"), core.Not(core.CallsAnyDirect(txm+"Hash")))), RejectVal: false, Sentinel: "types.ErrTxGroupHeader"}.Check(r)
 				core.RejectWhen{Fn: fn, Spec: asm, Name: "next != hash of the following member", BoolAtom: core.CallAtomSym("bytes.Equal", core.Mentions("types.Transaction.Next"), core.CallsAny(txm+"Hash")), RejectVal: false, Sentinel: "types.ErrTxGroupNext"}.Check(r)
 				core.RejectWhen{Fn: fn, Spec: asm, Name: "last member has a next", L: core.Mentions("types.Transaction.Next"), R: isNilLit, Rel: token.NEQ, Sentinel: "types.ErrTxGroupNext"}.Check(r)
 				core.RejectWhen{Fn: fn, Spec: asm, Name: "more than one para chain", L: lenOf(core.AnyExpr), R: core.IsConstInt(1), Rel: token.GTR, Sentinel: "types.ErrTxGroupParaCount"}.Check(r)
@@ -472,7 +471,7 @@ func init() {
 					}
 					// and nowhere else
 					outside := false
-					ast.Inspect(f.Body(), func(x ast.Node) bool {
+					core.InspectBody(f, func(x ast.Node) bool {
 						if as, isAs := x.(*ast.AssignStmt); isAs && len(core.StoresTo(c, as, "types.Transaction.Next")) > 0 && as.Pos() != pos {
 							outside = true
 						}
@@ -538,60 +537,17 @@ func lenOfDeep(p core.ExprPred) core.ExprPred {
 // function values, so the generic FailStops cannot name a callee): the call of
 // the range variable `opt` must have its error tested and returned.
 func optFail(r *Run) {
-	f := r.Fn("common/crypto.load")
-	if f == nil {
+	fn := "common/crypto.load"
+	if r.Fn(fn) == nil {
 		return
 	}
-	c := f.Ctx()
-	label := "common/crypto.load: a failing option aborts the load"
-	ok := false
-	var pos token.Pos
-	ast.Inspect(f.Body(), func(x ast.Node) bool {
-		rs, isR := x.(*ast.RangeStmt)
-		if !isR || !core.IsObj("param:1")(c, rs.X) {
-			return true
-		}
-		val, _ := rs.Value.(*ast.Ident)
-		if val == nil {
-			return true
-		}
-		// if err := opt(c); err != nil { return nil, err }
-		for _, st := range rs.Body.List {
-			ifs, isIf := st.(*ast.IfStmt)
-			if !isIf || ifs.Init == nil {
-				continue
-			}
-			as, isAs := ifs.Init.(*ast.AssignStmt)
-			if !isAs || len(as.Rhs) != 1 {
-				continue
-			}
-			call, isCall := as.Rhs[0].(*ast.CallExpr)
-			if !isCall {
-				continue
-			}
-			id, isId := call.Fun.(*ast.Ident)
-			if !isId || c.Info.ObjectOf(id) != c.Info.ObjectOf(val) {
-				continue
-			}
-			op, isCmp := core.CmpAtom(c, ifs.Cond, func(c *core.Ctx, e ast.Expr) bool {
-				i2, ok := ast.Unparen(e).(*ast.Ident)
-				return ok && len(as.Lhs) == 1 && c.Info.ObjectOf(i2) == c.Info.ObjectOf(as.Lhs[0].(*ast.Ident))
-			}, isNilLit)
-			if !isCmp || op != token.NEQ {
-				continue
-			}
-			for _, b := range ifs.Body.List {
-				if _, isRet := b.(*ast.ReturnStmt); isRet {
-					ok = true
-					pos = ifs.Pos()
-				}
-			}
-		}
-		return true
-	})
-	if ok {
-		r.OK(label, r.W.Pos(pos), "every option is applied in a loop over all options and its error returned")
-	} else {
-		r.Fail(label, r.W.Pos(f.Node().Pos()), "the option loop does not return the option's error: a disabled driver would be loaded")
-	}
+	opt := []string{"common/crypto.LoadOption"}
+	// an option that fails is never followed by a successful load
+	core.FailStops{Fn: fn, Callee: opt, Fail: core.OErrNonNil, Idx: -1, Forbidden: core.SuccessReturn(-1), Min: 1, Name: "a failing option aborts the load: option error"}.Check(r)
+	// and every option of the list is applied before the driver is handed out
+	applied := core.CallGuard{Fact: "option-applied", Callee: core.Names(opt...), Pass: core.OErrNil, Idx: -1, NoArgDeps: true,
+		ArgOK: func(c *core.Ctx, call *ast.CallExpr) bool { return core.Mentions("param:1")(c, call.Fun) }}
+	core.Dominated{Fn: fn, Spec: &core.FlowSpec{Calls: []core.CallGuard{applied},
+		Foralls: []core.ForallGuard{{Fact: "all-options-applied", Inner: "option-applied", Loop: core.CountsOver(core.IsObj("param:1"), 0)}}},
+		Sink: core.SuccessReturn(-1), Need: []Fact{"all-options-applied"}, Min: 1}.Check(r)
 }
